@@ -345,8 +345,10 @@ def gen(ctx):
         cases.append({"kind": "se3", "a": H(pose(rand_rot(rng), ta)), "b": H(pose(rand_rot(rng), tb))})
     cases.append({"kind": "se3", "a": H(np.eye(4)), "b": H(np.eye(4))})
     # sim3
-    for _ in range(120 * n):
+    for i in range(120 * n):
         s = float(10.0 ** rng.uniform(-4, 4))
+        if i % 6 == 5:   # scales next to 1 (inside the tolerance of the SE(3) membership test): still a similarity, not a rigid motion
+            s = 1.0 + float(rng.choice([-1.0, 1.0])) * float(rng.choice([1e-9, 1e-7, 1e-6, 3e-6]))
         t = rng.normal(size=3) * 10.0 ** rng.integers(-6, 10)
         cases.append({"kind": "sim3", "r": H(rand_rot(rng)), "t": H(t), "s": hexf(s)})
     # integer-typed Sim(3) matrices (axis-aligned rotation, integer scale and translation)
